@@ -475,7 +475,8 @@ def hash_history(rng, cid, vty=None, cap=None, length=None, mode='persistent', f
     if vty == 'u8':
         pool = list(range(0, 256)); rng.shuffle(pool); uni = pool[:cap + 3]
     else:
-        base = rng.choice([1, 1, 50, 2 ** 31, 2 ** 32 - 10]) if vty != 'u32' else rng.choice([1, 1, 50, 2 ** 32 - 20])
+        # the whole universe (and the fresh keys of a fill probe) must fit the value type
+        base = rng.choice([1, 1, 50, 2 ** 31, 2 ** 32 - 10]) if vty != 'u32' else rng.choice([1, 1, 50, 2 ** 32 - 2 * cap - 2100])
         uni = [base + i for i in range(cap + 3)]
         if rng.random() < 0.2:
             uni[0] = 0
@@ -624,6 +625,96 @@ def hash_exhaustive(vty, cap, m, L, prefix_id):
         out.append(Case('%s%d' % (prefix_id, n), 'hash', hdr, list(seq) + ['iter', 'fill 1000'], {'stream': 'X'}))
     return out
 
+# ------------------------------------------------------------------ arbitrary bytes (C05)
+def _corrupt_words(rng, raw, hdr_words, w, nslots, rec_len, hdr_len, link_offs):
+    """header words and record links replaced by values that are out of range, at the edge of the
+    range or simply different; the buffer may also be cut"""
+    b = bytearray(raw)
+    mx = (1 << (8 * w)) - 1
+    vals = [0, 1, 2, nslots, nslots + 1, nslots + 2, 2 * nslots + 3, 7, 200, mx, mx - 1, mx // 2]
+    for _ in range(rng.randint(1, 3)):
+        x = rng.random()
+        if x < 0.55 or nslots == 0:
+            i = rng.randrange(hdr_words)
+            b[i * w:(i + 1) * w] = le(rng.choice(vals), w)
+        elif x < 0.85:
+            slot = rng.randrange(nslots); off = hdr_len + slot * rec_len + rng.choice(link_offs)
+            b[off:off + w] = le(rng.choice([nslots + 1, nslots + 5, mx, mx - 3]), w)
+        else:
+            cut = rng.randint(1, min(nslots, 3))
+            b = b[:len(b) - cut * rec_len]
+    return bytes(b)
+
+def garbage_cases(rng, prefix_id, n):
+    """views over bytes that are not a reachable state: a safe API may panic on them, it may not touch
+    memory outside the buffer nor let its answers depend on what lies there"""
+    out = []
+    # witnesses of defect D13 (a length prefix that claims more values than the buffer holds: the unchecked
+    # element shift of insert wrote, and that of take read and wrote, past the buffer) run first
+    out.append(Case(prefix_id + 'D13a', 'arr', {'p': 1, 'vty': 'u32', 'raw': '08020000000400000006000000080000000000000000000000', 'mode': 'persistent'},
+                    ['ins 7 0'], {'stream': 'Z', 'garbage': True}))
+    out.append(Case(prefix_id + 'D13b', 'arr', {'p': 8, 'vty': 'u32', 'raw': '0800000000000000020000000400000006000000080000000a0000000c000000', 'mode': 'persistent'},
+                    ['rem 4 0'], {'stream': 'Z', 'garbage': True}))
+    out.append(Case(prefix_id + 'D13c', 'arr', {'p': 2, 'vty': 'u8', 'raw': '050002040608', 'mode': 'persistent'},
+                    ['ins 0 0'], {'stream': 'Z', 'garbage': True}))
+    for i in range(n):
+        kind = rng.choice(['avl', 'avl', 'hash', 'arr'])
+        if kind == 'avl':
+            bits = rng.choice([32, 8]); lay = rng.choice(['u64u64', 'u32u32', 'u16u32', 'u8u8', 'u64u8'])
+            nn = rng.randint(0, 6)
+            shape = rng.choice(avl_shapes(nn))[1]
+            raw, _, cap = avl_state_bytes(rng, bits, lay, shape, rng.choice([0, 1, 2]), rng.choice([0, 1, 2]))
+            w = bits // 8
+            hdr_len = 8 if w == 1 else 24
+            rec_len = (len(raw) - hdr_len) // cap if cap else 1
+            raw = _corrupt_words(rng, raw, 5, w, cap, rec_len, hdr_len, [0, w, 2 * w])
+            ks = [2, 4, 6, 1, 3, 9, 12]
+            ops = []
+            for _ in range(rng.randint(3, 9)):
+                o = rng.choice(['get', 'has', 'low', 'len', 'full', 'capq', 'ins', 'ins', 'rem', 'gmut0', 'dbg', 'openmut', 'init', 'empty'])
+                if o in ('get', 'has', 'rem', 'gmut0'):
+                    ops.append('%s %d' % (o, rng.choice(ks)))
+                elif o == 'ins':
+                    ops.append('ins %d %d' % (rng.choice(ks), rng.randint(0, 9)))
+                elif o == 'init':
+                    ops.append('init %d' % rng.choice([0, 1, cap, cap, max(0, cap - 1), cap + 1, cap + 3]))
+                else:
+                    ops.append(o)
+            out.append(Case('%s%d' % (prefix_id, i), 'avl', {'bits': bits, 'lay': lay, 'raw': raw.hex(), 'mode': 'persistent'}, ops, {'stream': 'Z', 'garbage': True}))
+        elif kind == 'hash':
+            vty = rng.choice(['u64', 'u32', 'u8', 'weak2'])
+            cap = rng.randint(1, 6)
+            vals = rng.sample(range(1, 9), rng.randint(0, cap))
+            raw = hash_state_bytes(rng, vty, cap, vals, rng.randint(0, cap - len(vals)))
+            rec_len = (len(raw) - 16) // cap
+            raw = _corrupt_words(rng, raw, 4, 4, cap, rec_len, 16, [0, 4])
+            ops = []
+            for _ in range(rng.randint(3, 9)):
+                o = rng.choice(['has', 'has', 'ins', 'ins', 'rem', 'size', 'full', 'capq', 'iter', 'reopen', 'init', 'empty'])
+                if o in ('has', 'ins', 'rem'):
+                    ops.append('%s %d' % (o, rng.randint(1, 10)))
+                elif o == 'init':
+                    ops.append('init %d' % rng.choice([0, 1, cap, cap, cap + 1, cap + 4]))
+                else:
+                    ops.append(o)
+            out.append(Case('%s%d' % (prefix_id, i), 'hash', {'vty': vty, 'raw': raw.hex(), 'mode': 'persistent'}, ops, {'stream': 'Z', 'garbage': True}))
+        else:
+            p = rng.choice([1, 2, 4, 8]); vty = rng.choice(['u8', 'u32', 'u64', 'pair'])
+            slots = rng.randint(0, 6)
+            n0 = rng.randint(0, slots)
+            cells = [(2 * (j + 1), 0) for j in range(n0)] + [(0, 0)] * (slots - n0)
+            cnt = rng.choice([n0, n0, slots + 1, slots + 2, 200, (1 << (8 * p)) - 1, n0 + 1])
+            raw = arr_encode(p, vty, cnt, cells)
+            ops = []
+            for _ in range(rng.randint(3, 8)):
+                o = rng.choice(['has', 'get', 'ins', 'ins', 'take', 'rem', 'len', 'full', 'deref', 'openmut', 'empty'])
+                if o in ('has', 'get', 'ins', 'take', 'rem'):
+                    ops.append('%s %d 0' % (o, rng.randint(0, 13)))
+                else:
+                    ops.append(o)
+            out.append(Case('%s%d' % (prefix_id, i), 'arr', {'p': p, 'vty': vty, 'raw': raw.hex(), 'mode': 'persistent'}, ops, {'stream': 'Z', 'garbage': True}))
+    return out
+
 # ------------------------------------------------------------------ array sets
 ARR_VTY = {'u8': (1, 0), 'u32': (4, 0), 'u64': (8, 0), 'pair': (4, 4)}
 
@@ -731,6 +822,23 @@ def arr_prefix_max_cases(prefix_id):
     out.append(Case(prefix_id + 'b', 'arr', {'p': 4, 'vty': 'u32', 'raw': raw.hex(), 'mode': 'persistent'}, ops, {'stream': 'L'}))
     return out
 
+def arr_modular_cases(prefix_id, big=True):
+    """more slots than the prefix can count, holding as many members as the slot count is modulo 2^(8p)
+    (a count compared with a truncated slot count looks full), and exactly the prefix maximum in more slots"""
+    out = []
+    cid = 0
+    todo = [(1, 256, 0), (1, 257, 1), (1, 260, 4), (1, 300, 44), (1, 512, 0), (1, 300, 255), (1, 256, 255), (1, 255, 255), (1, 254, 254)]
+    if big:
+        todo += [(2, 65539, 3), (2, 65536, 0)]
+    for p, slots, n in todo:
+        cells = [(2 * i + 3, 0) for i in range(n)] + [(0, 0)] * (slots - n)
+        raw = arr_encode(p, 'u32', n, cells)
+        ops = ['len', 'full', 'ins 1 0', 'len', 'full', 'ins 2 0', 'has 1 0', 'take 1 0', 'len', 'full', 'ins 1000000 0', 'len', 'deref']
+        if slots > 1000:
+            ops = ops[:-1]
+        out.append(Case('%s%d' % (prefix_id, cid), 'arr', {'p': p, 'vty': 'u32', 'raw': raw.hex(), 'mode': 'persistent'}, ops, {'stream': 'L'})); cid += 1
+    return out
+
 def arr_exhaustive(p, vty, slots, m, L, prefix_id):
     vals = list(range(1, m + 1))
     alphabet = ['ins %d 0' % k for k in vals] + ['take %d 0' % k for k in vals]
@@ -829,6 +937,10 @@ def pstr_trailing_cases(prefix_id):
             buf = le(len(body), p) + body + junk
             ops = ['setbuf %s' % buf.hex(), 'ro', 'new', 'asstr', 'ro']
             out.append(Case('%s%d' % (prefix_id, cid), 'pstr', {'p': p, 'size': len(buf)}, ops, {'stream': 'B'})); cid += 1
+            # the same bytes through the mutable view: the recorded length, not the buffer, bounds the string,
+            # copies stay within it and the bytes behind it are left alone
+            ops = ['setbuf %s' % buf.hex(), 'rw', 'asstr', 'size', 'copy %s' % b'QRSTUVW'.hex(), 'asstr', 'ro', 'upper', 'rw', 'copysl %s' % b'z'.hex(), 'asstr', 'ro']
+            out.append(Case('%s%d' % (prefix_id, cid), 'pstr', {'p': p, 'size': len(buf)}, ops, {'stream': 'B'})); cid += 1
         for extra in (1, 3, 17):
             body = b'hello'
             buf = le(len(body) + extra, p) + body
@@ -912,8 +1024,11 @@ def pstr_history(rng, cid, p=None, size=None):
             # the unsafe byte-level copy, called directly with (valid, ASCII) text of any length
             n = rng.choice([0, 1, 2, max(0, size - p - 1), max(0, size - p), size - p + 1, size - p + 5, 40])
             ops += ['copysl %s' % hx(bytes(rng.choice(b'abcxyz019') for _ in range(n))), 'asstr']
-        elif x < 0.88:
+        elif x < 0.84:
             ops += ['ro']
+        elif x < 0.9:
+            # drop the handle and re-open the same bytes mutably
+            ops += ['rw', 'asstr', 'size']
         else:
             ops += ['size', 'new', 'asstr']
     ops += ['ro', 'size']
@@ -1017,6 +1132,15 @@ def pod_cases(rng, prefix_id):
             ops.append('loadmut %d %s %s' % (sz, hx(data), hx(val)))
         if ln >= 0:
             ops.append('loadmutnw %d %s' % (sz, hx(bytes(rng.choice([0, 1, 2, 0x7f, 0x80, 0xff]) for _ in range(max(ln, sz))))))
+        # obtaining the mutable view writes nothing, whatever the bytes are: zeros inside, zeros at the ends,
+        # no zeros, text after a NUL, trailing bytes behind the value
+        if sz > 0:
+            pats = [bytes(sz), b'\xff' * sz, b'a' + bytes(sz - 1), bytes(sz - 1) + b'z',
+                    (b'a\x00' + b'\xffbc\x00d\x80' * 6)[:sz], (b'\x00' + b'xy\x00' * 12)[:sz], (b'ab\xe2\x82\x00q' * 6)[:sz]]
+            for pt in pats:
+                ops.append('loadmutnw %d %s' % (sz, hx(pt)))
+                ops.append('loadmutnw %d %s' % (sz, hx(pt + b'\x00\x07\x00')))
+                ops.append('load %d %s' % (sz, hx(pt + b'\x09')))
         for off in (0, 1, 2, 3, 4, 5, 8, 12):
             data = bytes(rng.randint(1, 255) for _ in range(sz + 9))
             ops.append('loadoff %d %d %s' % (sz, off, hx(data)))
